@@ -389,6 +389,24 @@ def run(rep, tier, seed, keep=False):
             rep.evaluations += 1
             if nh % 301 == 1:
                 rep.sample({'history': hist})
+        # histories of literals that differ in their quote style only (and therefore in how the text between the quotes is read),
+        # in every order on one engine of its own: a memo keyed by less than the whole token would confuse them
+        import itertools
+        bodies = ['tab\\there, and a few more characters', 'bad \\x escape zz, long enough', "it\\'s quoted \\\\ and long enough", 'no escape at all in this long one']
+        nlh = 0
+        for body in bodies:
+            lits = ["'%s'" % body, '"%s"' % body, '`%s`' % body, "'%s' " % body]
+            for perm in itertools.permutations(lits, 3):
+                eng_l = yaql.YaqlFactory().create()
+                for t in perm:
+                    got = outcome(lambda: eng_l(t))
+                    nlh += 1
+                    if got != fresh(t):
+                        rep.violation('C01/history/literal-styles', 'after history %r parse of %r gave %r, fresh engine gives %r' % (list(perm), t, got, fresh(t)),
+                                      {'history': list(perm), 'mode': 'history'})
+                        break
+        rep.evaluations += nlh
+        rep.extra['literal_style_history_parses'] = nlh
         rep.extra['histories_replayed'] = nh
         rep.traces += nsched + nh
         rep.nontrivial = ntriv
